@@ -5,6 +5,18 @@ V = os.path.dirname(os.path.dirname(os.path.abspath(__file__)))
 
 # id: (level, engine, technique, level text, level note, design section)
 CHECKS = {
+ "C05": ("exploration", "e2",
+  "complete enumeration of byte-string families (all scripts of length <=2, every 1-byte mutation/truncation/extension of every template, witness and multisig lookalike grids, all token sequences up to length 4/5) evaluated in-process by the repository's own eval_from_bytes and compared with an independent byte-level reference classifier with own Base58Check/Bech32(m) codecs; bound to the binary's output by class-representative worlds",
+  "2.2 million (quick) scripts per run cover every listed family completely on bitcoin and testnet3; type label and address must equal the reference rules, addresses are additionally decoded by the model's own decoders on mismatch. One world per network with a representative of every class is run through all five callbacks of the real binary so that what is printed is what was evaluated.",
+  "Trusted: SHA-256/RIPEMD-160. Grey zones left open by the text (v0 witness programs of illegal length: label; empty multisig keys) are not judged beyond 'no address'. Random byte strings are not sampled.", "6/C05"),
+ "C06": ("exploration", "e2",
+  "complete enumeration of byte-string families incl. every push encoding for every template slot x 15 payload lengths x truncation points, NOP insertion at every token boundary, huge PUSHDATA lengths, on all 6 fork coins, evaluated in-process against a reference push-rule tokeniser + template matcher; bound to the binary by class-representative worlds",
+  "2.6 million scripts per run on the six fork coins; type, address (coin version byte, 0x05 for P2SH) and OP_RETURN payload must equal the reference; no evaluation may panic or yield an Error pattern.",
+  "Trusted: SHA-256/RIPEMD-160. NOP set = 0x61, 0xb0..0xb9.", "6/C06"),
+ "C16": ("exploration", "e2",
+  "full product payload length x content class x push form evaluated in-process and, embedded in chains, through the opreturn callback of the real binary with several range shapes; stdout lines compared with the model's list",
+  "1020 (coin, script) evaluations in-process plus 20 whole-program runs (4 coins x 5 ranges, 3 blocks, ~65 transactions, every payload script as an output interleaved with non-OP_RETURN outputs): the printed (height, txid, payload) lines must be exactly the model's, in chain order.",
+  "Payloads with CR/LF are excluded (one line per output would be ill-defined). Other OP_RETURN shapes are don't-care.", "6/C16"),
  "C04": ("model_checking", "e1",
   "explicit enumeration of block-index histories (active chain + every set of <=2 competitor/header-only records, both LevelDB key orders, several write histories) executed on the real binary and compared with the model of the active chain",
   "For an active chain of 5 blocks, every set of up to two extra records (header-only at/below/beyond the tip, stale sibling with data, failed block with data, FAILED_CHILD header, reorged-out two-block branch), with each competitor's hash ground to sort before and after the active block's key, written as log-only / header-then-upgrade across a compaction / table-only index: csvdump and unspentcsvdump must equal the model of the active chain, rows must be prev-linked and no competitor txid may appear.",
